@@ -56,7 +56,7 @@ func (H) Describe(sc any) string {
 // Generate implements core.Harness.
 func (H) Generate(r *simrt.Rand, tier string) any {
 	s := &Scenario{Ctor: []string{"ordered", "less-desc", "less-string", "less-ties"}[r.Intn(4)], U: 2 + r.Intn(9)}
-	for i := 0; i < r.Intn(9); i++ {
+	for i, n := 0, r.Intn(9); i < n; i++ {
 		s.Init = append(s.Init, r.Intn(s.U))
 	}
 	if r.Intn(8) == 0 {
@@ -67,7 +67,7 @@ func (H) Generate(r *simrt.Rand, tier string) any {
 		// front, from the back, from the middle, look around - whose lengths sit on
 		// and next to those sizes.
 		s.U = 50 + r.Intn(950)
-		for i := 0; i < r.Intn(150); i++ {
+		for i, n := 0, r.Intn(150); i < n; i++ {
 			s.Init = append(s.Init, r.Intn(s.U))
 		}
 		for len(s.Ops) < 400 {
@@ -396,9 +396,7 @@ func run[T interface {
 				return fail(i, o, "model-bug", "model not sorted")
 			}
 		}
-		if got, want := s.String(), fmt.Sprint(model); got != want {
-			return fail(i, o, "string-mismatch:"+cat, "String()=%q want %q", got, want)
-		}
+		_ = s.String() // must not panic or disturb anything; its text is promised nowhere
 		for j := range snapshot {
 			if full[j] != snapshot[j] {
 				return fail(i, o, "input-aliased:"+cat, "the caller's backing array (length %d, capacity %d) changed: %v, was %v", len(input), cap(input), full, snapshot)
@@ -407,6 +405,15 @@ func run[T interface {
 		return nil
 	}
 	if v := verify(-1, Op{K: "new"}, "new"); v != nil {
+		return v, h, changes
+	}
+	// the input is the caller's: it overwrites it once the constructor has returned
+	// (a Sorted that kept the slice instead of copying it now holds other values)
+	for j := range input {
+		input[j] = conv(sc.U + 7)
+		snapshot[j] = input[j]
+	}
+	if v := verify(-1, Op{K: "new"}, "new-input-overwritten"); v != nil {
 		return v, h, changes
 	}
 	for i, o := range sc.Ops {
